@@ -10,13 +10,14 @@
    prefix of the reference list / all of it and closed when the driver finished, errors
    propagated to the driver and nothing called after an error, lazy initializer called at most
    once and exactly once if anything reached the sink).
-   Proved: the full statement for map, filter, filter_map ([C14_map], [C14_filter],
-   [C14_filter_map]); the initializer clause for LazySink over ANY downstream sink
-   ([C14_lazy_init_once_partial]).  For flat_map,
-   flatten, unzip and the delivery clauses of LazySink the property is checked per run on the
-   implementation's histories only (correspondence + executable property), not yet proved. *)
+   Proved: the full statement for every MODELLED adaptor: map, filter, filter_map, flat_map,
+   flatten, unzip and LazySink ([C14_map], [C14_filter], [C14_filter_map], [C14_flat_map],
+   [C14_flatten], [C14_unzip], [C14_lazy], + [C14_lazy_init_once_partial]: initializer count over
+   ANY downstream sink, kept under its historical name).  UNMODELLED (no claim): inspect,
+   for_each, try_for_each, send_iter, send_stream, demux_map, demux_map_lazy, demux_var,
+   LazySinkSource, LazySource. *)
 From Coq Require Import List NArith Bool.
-From HV Require Import Push.SinkModel Push.PBase Push.PSink Push.PSinkOne.
+From HV Require Import Push.SinkModel Push.PBase Push.PSink Push.PSinkOne Push.PSinkLazy Push.PSinkUnzip Push.PSinkFlat.
 Import ListNotations.
 
 (* FULL statement for the forwarding adaptors map.rs / filter.rs / filter_map.rs over a scripted
@@ -62,6 +63,59 @@ Proof.
   intros a s. cbn. destruct (q a); reflexivity.
 Qed.
 Print Assumptions C14_filter.
+
+(* FULL statement for FlatMap / Flatten (flat_map.rs, flatten.rs).  [FMInv] (PSinkFlat.v), by
+   outcome, with [spend] = the buffered iterator (iter_next): strict protocol; while not failed
+   accepted = offered and offered ++ buffered = flat_map g (items sent so far): the element
+   buffered across a Pending answer is neither lost nor duplicated; SFinished: accepted =
+   flat_map g items and closed; SFailed: failure in the log, offered is a prefix. *)
+Theorem C14_flat_map : forall A B (g : A -> list B) fuel items (s0 : sds B),
+    slg s0 = [] ->
+    match sdrive (sflat_map (srec B) g) fuel items (None, s0) [] with
+    | (o, _, st') => sresult (sflat_map (srec B) g) (FMInv g) items o st'
+    end.
+Proof. exact (@sflat_map_correct). Qed.
+Print Assumptions C14_flat_map.
+
+Theorem C14_flatten : forall B fuel (items : list (list B)) (s0 : sds B),
+    slg s0 = [] ->
+    match sdrive (sflatten (srec B)) fuel items (None, s0) [] with
+    | (o, _, st') => sresult (sflatten (srec B)) (FMInv (fun l : list B => l)) items o st'
+    end.
+Proof. exact sflatten_correct. Qed.
+Print Assumptions C14_flatten.
+
+(* FULL statement for Unzip (unzip.rs as of /repo e255bb09846) over two recorders with arbitrary
+   Ready/Pending/Err scripts.  [UInv] (PSinkUnzip.v), by outcome: both logs satisfy the strict
+   protocol [swf]; SFinished: no failure, both closed, sink 0 accepted exactly [map fst items]
+   and sink 1 exactly [map snd items]; SFailed: one of the two logs contains the failure, both
+   protocol-correct, items offered are prefixes of the references; never panics. *)
+Theorem C14_unzip : forall A B fuel (items : list (A * B)) (d0 : sds A) (d1 : sds B),
+    slg d0 = [] -> slg d1 = [] ->
+    match sdrive (sunzip (srec A) (srec B)) fuel items ((false, false), (d0, d1)) [] with
+    | (o, _, st') => sresult (sunzip (srec A) (srec B)) (@UInv A B) items o st'
+    end.
+Proof. exact (@sunzip_correct). Qed.
+Print Assumptions C14_unzip.
+
+(* FULL delivery statement for LazySink (lazy.rs) over a recorder, for every initializer pending
+   count [n] and result [ok] and all scripts.  [LInv] (PSinkLazy.v), by outcome, with
+   [held] = the item LazySink holds (Thunkulating.item / Done.buf):
+     - always: strict protocol [swf] toward the inner sink; nothing reaches it before the
+       initializer succeeded; while an item is held nothing has been offered yet, so the item
+       handed over while uninitialised is delivered FIRST;
+     - not failed: items offered = items accepted, and offered ++ held = the items the driver
+       has sent: nothing lost, nothing duplicated, for any initializer / readiness script;
+     - SFinished: accepted = all items, nothing held, and the sink closed (or never created
+       because there were no items);
+     - SFailed: the inner sink's log contains the failure or the initializer failed. *)
+Theorem C14_lazy : forall A fuel (items : list A) n ok (s0 : sds A),
+    slg s0 = [] ->
+    match sdrive (slazy (srec A)) fuel items (@LUninit A n ok, 0, s0) [] with
+    | (o, _, st') => sresult (slazy (srec A)) (@LInv A) items o st'
+    end.
+Proof. exact (@lazy_correct). Qed.
+Print Assumptions C14_lazy.
 
 Theorem C14_lazy_init_once_partial : forall A (nx : sink A) fuel items n ok (s0 : SSt nx),
     match sdrive (slazy nx) fuel items (@LUninit A n ok, 0, s0) [] with
